@@ -122,9 +122,10 @@ theorem model_holds (p : Prior) (k k1 k2 : Nat) (hp : p.file.gen < 65536) :
   obtain ⟨_, _, _, _, _, hfresh⟩ := hrep
   have efresh : (predict p k k1 k2).fresh = cellsText (recCells k2) := by
     rw [predict_fresh]; exact congrArg cellsText hfresh
+  have emode : (predict p k k1 k2).mode = "644" := rfl
   unfold HoldsFile
   cases hu : p.file.usable
-  · simp [efresh, predict_att1_unusable p k k1 k2 hu, predict_att2_unusable p k k1 k2 hu]
+  · simp [efresh, emode, predict_att1_unusable p k k1 k2 hu, predict_att2_unusable p k k1 k2 hu]
   · obtain ⟨q1, q2, q3, _⟩ := usable_preserved p.file (recCells k1) k hu hp
     have hatt := attached_reader_across_restart p.file (recCells k1) (recCells k2) k hu hp
     dsimp only at hatt
@@ -142,7 +143,7 @@ theorem model_holds (p : Prior) (k k1 k2 : Nat) (hp : p.file.gen < 65536) :
     have e4 : (predict p k k1 k2).att2 = cellsText (recCells k2) := by
       rw [predict_att2_usable p k k1 k2 hu]; exact congrArg cellsText a2
     have e5 := predict_att1_usable p k k1 k2 hu
-    rw [predict_inodeSame, hpres, efresh, e1, e2, e3, e4, e5]
+    rw [predict_inodeSame, hpres, efresh, emode, e1, e2, e3, e4, e5]
     rcases a1 with a | a | a <;> rw [a] <;> simp
 
 example : (runUntil (Prior.valid 4 90).file (recCells 1) 9).2 = some .storeGenOdd := by decide
